@@ -8,6 +8,7 @@ import (
 	"net/http/httptest"
 	"net/url"
 	"os"
+	"runtime/debug"
 	"sort"
 	"strings"
 	"time"
@@ -475,6 +476,7 @@ type httpResult struct {
 	Header http.Header
 	Body   []byte
 	Panic  string
+	Stack  string
 }
 
 // httpDo serves one request with the real mux from the calling task.
@@ -501,6 +503,14 @@ func (w *confWorld) httpDo(method, path string, hdr map[string]string, body stri
 		defer func() {
 			if p := recover(); p != nil {
 				res.Panic = fmt.Sprint(p)
+				st := string(debug.Stack())
+				if i := strings.Index(st, "panic("); i >= 0 {
+					st = st[i:]
+				}
+				if len(st) > 1200 {
+					st = st[:1200]
+				}
+				res.Stack = st
 			}
 		}()
 		w.mux.ServeHTTP(rec, req)
